@@ -25,6 +25,9 @@ inductive SIn
   | clientClose (i : Nat)              -- client `i` closes (clean close or EOF)
   | exitCmd (i : Nat)                  -- the bundled client's `exit` command: closes the connection
   | stop                               -- the serving task is cancelled
+  | restart                            -- `serve_forever()` is called again on the same server object, after the
+                                       -- previous serving task is done (before that the input is ignored: the
+                                       -- harness never does it, the address would still be bound)
 deriving DecidableEq, Repr, Inhabited
 
 /-- `serve_forever()` returned: the server listens, the task is alive -/
@@ -51,6 +54,10 @@ def Srv.step (s : Srv) : SIn → Srv
   | .clientClose i => (s.drop i).settle
   | .exitCmd i => (s.drop i).settle
   | .stop => { s with stopRequested := true, listening := false }.settle
+  | .restart =>
+    if s.serveDone then
+      { s with listening := true, stopRequested := false, serveDone := false, socketFile := s.unix }
+    else s
 
 def Srv.run (s : Srv) (ins : List SIn) : Srv := ins.foldl Srv.step s
 
